@@ -289,6 +289,49 @@ def w_shortkey(spec, ctx, L):
                 r = outcome(mk(pub).verify, L.hnew(hname, msg), cand)
                 judge(ctx, scheme, "modulus-too-short-for-hash", r, False,
                       lambda: dict(wit(), signature=cand.hex()), desc=("rsa", bits, e, hname))
+    # exact boundaries: the smallest modulus that can carry the hash (RFC 8017 9.2 step 3: emLen >= tLen + 11, i.e. at least
+    # eight octets of padding; 9.1.1 step 3: emLen >= hLen + sLen + 2) and the modulus one octet shorter
+    for hname in [h for h in ("sha1", "sha224", "sha256", "sha384", "sha512", "sha3_256", "md5") if h in L.hashes]:
+        hlen = HASHES[hname][2]
+        tlen = len(L.rsa.digest_info(hname, bytes(hlen)))
+        for scheme, kmin in (("pkcs1v15", tlen + 11), ("pss", 2 * hlen + 2)):
+            for k in (kmin - 1, kmin):
+                # pkcs1v15: k octets of modulus; pss: emLen = ceil((bits - 1) / 8) = k with bits = 8k
+                kd, key, pub = _one_key(L, ctx, 8 * k, rng.choice([3, 17, 65537]), rng)
+                msg = rng.randbytes(rng.choice([0, 1, 20]))
+                wit = lambda: dict(key={f: hex(kd[f]) for f in ("n", "e", "d")}, hash=hname, message=msg.hex(), k=k, smallest_k_that_works=kmin)
+                mk = (lambda kk: L.pkcs1_15.new(kk)) if scheme == "pkcs1v15" else (lambda kk: L.pss.new(kk))
+                ctx.case((scheme, "boundary-key", hname, k - kmin))
+                ctx.count("boundary_keys:" + scheme)
+                res = outcome(mk(key).sign, L.hnew(hname, msg))
+                if k < kmin:
+                    expect_refused(ctx, res, "exc:%s:sign-short-key-not-ValueError" % scheme,
+                                   "sign() with a modulus one octet too short for the hash did not raise the documented ValueError",
+                                   wit, "refused:short-key-sign:" + scheme)
+                    cands = [rng.randbytes(k - 1).rjust(k, b"\0")]
+                    if res[0] == "ok" and isinstance(res[1], bytes):
+                        cands.append(res[1])
+                    if scheme == "pkcs1v15":
+                        T = L.rsa.digest_info(hname, L.digest(hname, msg))
+                        forged = sig_of_em(kd, b"\x00\x01" + b"\xff" * (k - 3 - len(T)) + b"\x00" + T)      # 7 octets of padding
+                        if forged is not None:
+                            cands.append(forged)
+                    for cand in cands:
+                        r = outcome(mk(pub).verify, L.hnew(hname, msg), cand)
+                        judge(ctx, scheme, "modulus-too-short-for-hash", r, False, lambda: dict(wit(), signature=cand.hex()),
+                              desc=("rsa-boundary", hname, k - kmin))
+                else:
+                    if sign_failed(ctx, scheme, res, wit):
+                        continue
+                    if scheme == "pkcs1v15":
+                        T = L.rsa.digest_info(hname, L.digest(hname, msg))
+                        want = sig_of_em(kd, b"\x00\x01" + b"\xff" * 8 + b"\x00" + T)
+                        ctx.check(res[1] == want, "bytes:pkcs1v15:signature-differs",
+                                  "the signature is not the one EMSA-PKCS1-v1_5 defines (smallest modulus that carries the hash)",
+                                  lambda: dict(wit(), signature=res[1].hex(), model_signature=None if want is None else want.hex()))
+                    r = outcome(mk(pub).verify, L.hnew(hname, msg), res[1])
+                    judge(ctx, scheme, "produced", r, True, lambda: dict(wit(), signature=res[1].hex()), produced=True,
+                          desc=("rsa-boundary", hname, 0))
     ctx.count("shortkey_done")
 
 
